@@ -134,7 +134,7 @@ def structured_rotation(x: jnp.ndarray,
   w = jnp.pad(x_flat, (0, d - x.size))
   rademacher = jax.random.rademacher(rng, w.shape)
   return walsh_hadamard_transform(w * rademacher) / jnp.sqrt(d), jnp.array(
-      x.shape)
+      x.shape, dtype=jnp.int32)
 
 
 def inverse_structured_rotation(x: jnp.ndarray, rng: PRNGKey,
